@@ -18,11 +18,11 @@ for p in m['packages']:
 git checkout -q -- . || exit 2
 mkdir -p "$CRATE_DIR/tests" && cp "$OUT/seed_demo.rs" "$CRATE_DIR/tests/seed_demo.rs"
 echo "== demo without the change (must pass)"
-cargo test -p "$CRATE" --test seed_demo --offline >"$OUT/confirm_demo_clean.log" 2>&1; R_CLEAN=$?
+cargo test -p "$CRATE" --test seed_demo --offline ${DEMO_FEATURES:+--features $DEMO_FEATURES} >"$OUT/confirm_demo_clean.log" 2>&1; R_CLEAN=$?
 echo "   exit=$R_CLEAN"
 git apply "$OUT/patch.diff" || { echo "patch does not apply to a clean checkout"; exit 1; }
 echo "== demo with the change (must fail, must compile)"
-cargo test -p "$CRATE" --test seed_demo --offline >"$OUT/confirm_demo_patched.log" 2>&1; R_PATCH=$?
+cargo test -p "$CRATE" --test seed_demo --offline ${DEMO_FEATURES:+--features $DEMO_FEATURES} >"$OUT/confirm_demo_patched.log" 2>&1; R_PATCH=$?
 COMPILE_ERR=$(grep -c "^error\(\[E[0-9]*\]\)\?:" "$OUT/confirm_demo_patched.log" | head -1)
 grep -q "could not compile" "$OUT/confirm_demo_patched.log" && COMPILED=0 || COMPILED=1
 echo "   exit=$R_PATCH compiled=$COMPILED"
